@@ -183,6 +183,7 @@ func runJ5sFmt(ctx context.Context, cfg struct {
 		return nil
 	}
 
+	outWriter = &fileWriter{dir: cfg.Dir}
 	return runForJ5Files(ctx, os.DirFS(cfg.Dir), doFile)
 }
 
